@@ -236,6 +236,12 @@ def r2_duality(ctx, outs, key):
         # recursion arguments
         exp_rec = None
         for rec in info['rec']:
+            if len(rec) != 4:
+                ctx.ob(rule, MINIMAX, '%s: child searched with (depth-1, current window, %s)' % (name, childflag), False,
+                       found=[show(x) for x in rec], expected='(depth - 1, alpha, beta, %s) and nothing else handed down' % childflag,
+                       why='a further value handed to the child (a score computed by the parent, a hint) makes the child\'s result depend on more than its '
+                           'position, depth, window and side, which is all the cache key and the minimax recurrence know')
+                continue
             d, a, b, f = rec
             lv_w = [s for s in subterms(a if own == 5 else b) if s[0] == 'lv' and s[2] == wl]
             okr = d == ('bin', 'Sub', ('p', 4), C(1)) and bool(lv_w) and (b if own == 5 else a) == ('p', other) and f == C(childflag)
@@ -320,7 +326,7 @@ def r3_leaf_and_root(ctx, outs, key):
                    found=[show(st[0][2][1]), show(st[0][2][2])], expected='set_cache(key probed at entry, returned value)')
     ctx.floor(rule, 'leaf/no-move return paths', n, 2)
     # root closure
-    clo = SEARCH + '::{closure#0}'
+    clo = par_task(facts, SEARCH)
     eng = Engine(facts, opaque={MINIMAX, CHESSMOVE + '::apply', CHESSMOVE + '::undo', BOARD + '::toggle_turn',
                                 'chess::move_generator::MoveGenerator::new'}, readonly={AB + 'SearchContext::search_depth'})
     couts = eng.run(clo)
